@@ -47,13 +47,13 @@ CHECKS = {
    note="rustfmt --edition 2021 stands for the build's formatter; no ruff offline, so Python is compared as AST with docstrings line-stripped", ref="3/C05"),
  "C07": dict(cat="exploration", technique="exhaustive enumeration of emitted Rust items against an independent mapping (text analyser, fail-closed)",
    text="Every item of the lib.rs emitted from the working tree (and of the committed copy) is parsed and compared with an independent re-statement of the mapping: field-name sets under serde's rename rule, type trees, Option wrapping, enum discriminants incl. the hand-written impls, untagged aliases, message structs, method enums, feature gates; both directions.",
-   note="declarations only - serde runtime behaviour is not exercised (no crates offline)", ref="3/C07"),
+   note="declarations only - serde runtime behaviour is not exercised (no crates offline); the params type of a message struct is compared for references to structures that have properties (the plugin types the params of property-less structures as LSPAny)", ref="3/C07"),
  "C08": dict(cat="exploration", technique="exhaustive enumeration of emitted C# files against an independent mapping (text analyser, fail-closed)",
    text="Every .cs file the dotnet plugin writes from the working tree is parsed; DataMember sets, type trees, nullability, NullValueHandling, constructor assignment, enum values and the per-method metadata table (LSPRequest/LSPResponse pairing, LSPMethods constants, Direction) are compared with lsp.json. At every position of an anonymous literal the C# type written there must name a generated class of its own whose data members are the literal's properties.",
-   note="declarations only (no .NET SDK); value-type collections judged on constructor defaults", ref="3/C08"),
+   note="declarations only (no .NET SDK); the nullable / null-ignoring rule is applied to array and map members as well (known finding KF-dotnet-optional-collections); a notification class carries its method through its LSPMethods constant (the plugin puts no attribute on the class)", ref="3/C08"),
  "C17": dict(cat="exploration", technique="exhaustive over all emitted vectors against an independent strict validator + converter acceptance",
    text="All vectors written by a real CLI run of the testdata plugin are named/hashed correctly, labelled exactly as an independent strict metamodel validator decides, every message class has a True vector and every True vector is accepted by the Python converter.",
-   note="validator's lenient choices (open empty objects, result+error, null params only when undeclared) are stated in the evidence", ref="3/C17"),
+   note="validator's lenient choices (open empty objects, null params only when undeclared) are stated in the evidence; result together with error in a True response vector is judged separately (known finding KF-testdata-result-and-error)", ref="3/C17"),
 
  "C06": dict(cat="exploration", technique="property-based testing over generated programs (Hypothesis edit sequences on the metamodel) with the other properties' oracles re-instantiated",
    text="Metamodels are generated as schema-valid edit sequences of lsp.json and given to all four plugins; plugin termination, import of the generated module and the C01-C04/C07-C10/C17 oracles are evaluated for the evolved model. Samples an unbounded family bounded by <=6 edits and the stated type grammar. Every evolved document is also cut into two model files at drawn indices (metamorphic: merge is concatenation, the output must not change); standing foci keep one production per past defect.",
